@@ -219,6 +219,136 @@ def gen_rv_ops(info, rng, tier):
     return ops
 
 
+# ------------------------------------------------------------------ LoongArch64
+
+LA_PREFIX = {"R": "r", "F": "f", "S": "s", "C": "c", "U": "#"}
+LA_COUNT = {"R": 32, "F": 32, "S": 4, "C": 8}
+
+
+def la_slot_values(kind, width, full):
+    n = LA_COUNT.get(kind, 1 << width)
+    if full or n <= 8:
+        return list(range(n))
+    return sorted({0, 1, 2, n // 2 - 1, n // 2, n - 2, n - 1})
+
+
+def la_imm_pool(kind, W, rng, tier):
+    vals = set()
+    if kind == "UI":
+        vals.update(boundary_ints(W, False))
+        vals.update([-1, -2, (1 << W), (1 << W) + 1, (1 << (W + 1)) - 1, -(1 << (W - 1)) if W > 1 else -1])
+        lo, hi, step = 0, (1 << W) - 1, 1
+    elif kind == "SI":
+        vals.update(boundary_ints(W, True))
+        lo, hi, step = -(1 << (W - 1)), (1 << (W - 1)) - 1, 1
+        vals.update([lo - 1, lo - 2, hi + 1, hi + 2, (1 << W) - 1, (1 << W), -(1 << W)])
+    else:  # OF: byte offset, multiple of 4, W-bit signed word offset
+        for v in boundary_ints(W, True):
+            vals.add(v * 4)
+        lo, hi, step = -(1 << (W - 1)) * 4, ((1 << (W - 1)) - 1) * 4, 4
+        vals.update([lo - 4, hi + 4, hi + 8, lo - 8, 1, 2, 3, 5, 6, -1, -2, -3, hi + 1, hi + 2, lo + 1, (1 << (W + 1)) * 4, -(1 << (W + 1)) * 4])
+    for _ in range(4 if tier == "quick" else 40):
+        vals.add(rng.randrange(lo, hi + 1) // step * step)
+    return sorted(v for v in vals if -(1 << 31) <= v < (1 << 31))
+
+
+LA_GROUPED = ("unused-operand:ignored", "signed-imm:unsigned-range-accepted", "number-field:not-range-checked",
+              "branch-offset:not-range-checked", "branch-offset:misaligned-accepted")
+
+
+def la_invalid_reason(name, regs, imm, fi):
+    """first reason why (regs, imm) is not an operand tuple the ISA format can express."""
+    slots = {s: (k, w) for s, k, w in fi}
+    for i, sname in enumerate(("rd", "rs1", "rs2", "rs3")):
+        t = regs[i]
+        if sname not in slots:
+            if t != "-":
+                return "unused-operand:ignored"
+            continue
+        k, w = slots[sname]
+        if t == "-":
+            return "other"
+        if k == "U":
+            if t[0] != "#" or int(t[1:]) >= (1 << w):
+                return "number-field:not-range-checked"
+        elif t[0] != LA_PREFIX[k]:
+            return "other"
+    if "imm" not in slots:
+        return "unused-operand:ignored" if imm != 0 else "other"
+    k, W = slots["imm"]
+    if k == "UI":
+        return "number-field:not-range-checked" if not (0 <= imm < (1 << W)) else "other"
+    if k == "SI":
+        if (1 << (W - 1)) <= imm < (1 << W):
+            return "signed-imm:unsigned-range-accepted"
+        return "signed-imm:not-range-checked" if not (-(1 << (W - 1)) <= imm < (1 << (W - 1))) else "other"
+    if k == "OF":
+        if imm % 4:
+            return "branch-offset:misaligned-accepted"
+        return "branch-offset:not-range-checked" if not (-(1 << (W - 1)) <= imm // 4 < (1 << (W - 1))) else "other"
+    return "other"
+
+
+def gen_la_ops(rows, fmtinfo, rng, tier):
+    """rows: parsed dump rows; fmtinfo: name -> [(slot, kind, width)] from the Lean model's layout of the row's format."""
+    ops = []
+    seen_fmt_full = set()
+    for r in rows:
+        name = r["name"]
+        fi = fmtinfo.get(name)
+        if fi is None:
+            continue
+        regslots = [(s, k, w) for s, k, w in fi if s != "imm"]
+        imm = [(k, w) for s, k, w in fi if s == "imm"]
+        order = ["rd", "rs1", "rs2", "rs3"]
+        base = {}
+        for s, k, w in regslots:
+            vs = la_slot_values(k, w, False)
+            base[s] = (k, rng.choice(vs))
+        def line(regvals, im):
+            f = []
+            for s in order:
+                if s in regvals:
+                    k, v = regvals[s]
+                    f.append("%s%d" % (LA_PREFIX[k], v))
+                else:
+                    f.append("-")
+            return "la %s %s %d" % (name, " ".join(f), im)
+        im0 = 0
+        # the first row of every format sweeps every register number; later rows of the same format a boundary subset
+        full = r["fmt"] not in seen_fmt_full or tier != "quick"
+        seen_fmt_full.add(r["fmt"])
+        ops.append(line(base, im0))
+        for s, k, w in regslots:
+            for v in la_slot_values(k, w, full):
+                rv = dict(base)
+                rv[s] = (k, v)
+                ops.append(line(rv, im0))
+            # one value just outside the field / register file, and the wrong register class
+            rv = dict(base); rv[s] = ("U", (1 << w) if k == "U" else 1000); ops.append(line(rv, im0))
+            if k in ("R", "F"):
+                rv = dict(base); rv[s] = ("F" if k == "R" else "R", 3); ops.append(line(rv, im0))
+            rv = dict(base); del rv[s]; ops.append(line(rv, im0))          # operand missing
+        if imm:
+            k, W = imm[0]
+            pool = la_imm_pool(k, W, rng, tier)
+            if not full:
+                pool = pool[:: max(1, len(pool) // 24)] + pool[-3:]
+            for i, im in enumerate(pool):
+                rv = {}
+                for j, (s, kk, w) in enumerate(regslots):
+                    vs = la_slot_values(kk, w, False)
+                    rv[s] = (kk, vs[(i + j) % len(vs)])
+                ops.append(line(rv, im))
+        elif full:
+            ops.append(line(base, 4))                                       # immediate given to an instruction without one
+        if full:
+            for s in order:
+                if s not in base:
+                    rv = dict(base); rv[s] = ("R", 7); ops.append(line(rv, im0))   # operand in a slot the format does not have
+    return ops
+
+
 def write_if_changed(path, text):
     """regenerate: the old file is removed first so a failed generation cannot leave a stale table behind."""
     old = open(path).read() if os.path.exists(path) else None
@@ -241,6 +371,13 @@ def run(ctx):
         from lib.vlib import InfraError
         raise InfraError("riscv table dump is empty:\n" + rv_dump[:500])
     write_if_changed(GEN_RV, rv_text)
+    _, la_dump, _ = ctx.run_bin(h, args=["dump", "loong64"])
+    la_text, la_rows = c17_tables.gen_loong64(la_dump)
+    la_rows = [r for r in la_rows if int(r["mask"]) != 0 or int(r["value"]) != 0]
+    if len(la_rows) < 10:
+        from lib.vlib import InfraError
+        raise InfraError("loong64 table dump is empty:\n" + la_dump[:500])
+    write_if_changed(GEN_LA, la_text)
 
     ctx.prove(required=REQUIRED)
     m = ctx.build_model("c17")
@@ -352,6 +489,8 @@ def run(ctx):
                     key = "riscv:JAL:omitted-rd"
                 elif name in ("ECALL", "EBREAK"):
                     key = "riscv:ECALL-EBREAK:operands-ignored"
+                elif base_name in ("SLLIW", "SRLIW", "SRAIW") and xlen == "64" and imm >= 32 and sym == "undecodable":
+                    key = "riscv:shift-imm-W:shamt-6bit-accepted"
                 else:
                     key = "riscv:%s:%s" % (rv_group(base_name, fmt_l), sym)
                 ctx.violation(key, "riscv.Encode accepts `%s` and produces %s, which the specification decoder reads as `%s` (expected %s)" % (
@@ -404,6 +543,131 @@ def run(ctx):
         bump("rv_bad_range_" + nm)
     dist["rv_over_rejected_classes"] = over_reject
 
+    # =============================================================== LoongArch64
+    la_bad_rows = []
+    if m:
+        _, fo, _ = ctx.run_bin(m, input_text="\n".join("lafmt " + r["name"] for r in la_rows) + "\nlarows\n")
+        fl = fo.splitlines()
+        fmtinfo = {}
+        for r, l in zip(la_rows, fl):
+            if l.startswith("fmt"):
+                fmtinfo[r["name"]] = [tuple(x.split(":")[:2]) + (int(x.split(":")[2]),) for x in l.split()[1:]]
+        la_bad_rows = [x for x in fl[-1].split(" ", 1)[1].split(",") if x] if fl and " " in fl[-1] else []
+        la_ops = [o for o in ops if o.startswith("la ")] + gen_la_ops(la_rows, fmtinfo, ctx.rng, ctx.tier)
+        seen = set()
+        la_ops = [o for o in la_ops if not (o in seen or seen.add(o))]
+        _, out, err = ctx.run_bin(h, input_text="\n".join(la_ops) + "\n")
+        limpl = out.splitlines()
+        if len(limpl) != len(la_ops):
+            from lib.vlib import InfraError
+            raise InfraError("harness output length %d != %d la ops\n%s" % (len(limpl), len(la_ops), err[-2000:]))
+        evaluations += len(la_ops)
+        dec_ops = sorted({"ladec " + r.split()[1] for r in limpl if r.startswith("ok ")})
+        _, mo, _ = ctx.run_bin(m, input_text="\n".join(la_ops + dec_ops) + "\n")
+        ml = mo.splitlines()
+        if len(ml) != len(la_ops) + len(dec_ops):
+            ctx.proof["broken"].append({"theorem": "wamodel_c17", "why": "model driver output length (loong64) %d != %d" % (len(ml), len(la_ops) + len(dec_ops))})
+            ml = ml + ["?"] * (len(la_ops) + len(dec_ops) - len(ml))
+        lspec = {d.split()[1]: r for d, r in zip(dec_ops, ml[len(la_ops):])}
+        la_fmt_of = {r["name"]: r["fmt"] for r in la_rows}
+        la_bad = set(la_bad_rows)
+        la_row_example = {}
+        unexplained = []
+        la_over = {}
+        for idx, (o, r) in enumerate(zip(la_ops, limpl)):
+            f = o.split()
+            name, regs, imm = f[1], f[2:6], int(f[6])
+            # a plain-number operand (code / hint / op / msb / lsb) that is absent is the number 0
+            ukinds = {sn for sn, k, w in fmtinfo.get(name, []) if k == "U"}
+            regs = ["#0" if (t == "-" and sn in ukinds) else t for t, sn in zip(regs, ("rd", "rs1", "rs2", "rs3"))]
+            menc = ml[idx]
+            fmtn = la_fmt_of.get(name, "?")
+            if r.startswith(("PANIC", "MISMATCH", "bad")):
+                ctx.violation("loong64:harness:%s" % r.split()[0], "%s -> %s" % (o, r), {"op": o, "impl": r})
+                continue
+            ctx.corr["lines"] += 1
+            if not r.startswith("ok "):
+                bump("la_" + r.replace(" ", "_"))
+                if menc.startswith("ok"):
+                    la_over[fmtn] = la_over.get(fmtn, 0) + 1
+                    bump("la_over_rejected")
+                nontrivial.add(("la", name, "rej"))
+                continue
+            bump("la_accepted")
+            parts = [x.strip() for x in r.split("|")]
+            word = parts[0].split()[1]
+            repo_dec, raw_in = parts[1], parts[2].split()[1:]
+            sd = lspec.get(word, "?")
+            sym = None
+            if not sd.startswith("D "):
+                sym = "undecodable"
+            else:
+                g = sd.split()
+                if g[1] != name:
+                    sym = "wrong-instruction"
+                elif g[2:6] != list(regs):
+                    sym = "register"
+                elif int(g[6]) != imm:
+                    sym = "imm"
+            if sym:
+                # why is the input outside what the ISA can express (the encoder model rejects it)?  None: it is a valid input
+                reason = None if menc.startswith("ok") else la_invalid_reason(name, regs, imm, fmtinfo.get(name, []))
+                sym = {None: "wrong-encoding"}.get(reason, reason) if reason != "other" else sym
+            if sym:
+                if name in la_bad:
+                    key = "loong64:table-row:%s" % name
+                    la_row_example.setdefault(name, o)
+                elif sym in LA_GROUPED:
+                    key = "loong64:%s" % sym
+                elif fmtn == "cd_2F":
+                    key = "loong64:cd_2F:wrong-encoding"          # fk is taken from Rs1: Rs2 is never read
+                else:
+                    key = "loong64:%s:%s" % (fmtn, sym)
+                ctx.violation(key, "loong64.EncodeLA64 accepts `%s` and produces %s, which the specification decoder reads as `%s`" % (o, word, sd),
+                              {"op": o, "impl": r, "spec_decode": sd})
+            else:
+                bump("la_spec_roundtrip_ok")
+                # the repo's own decoder must return the original instruction (raw abi.RegType numbers)
+                want = "D %s %s %d" % (name, " ".join(raw_in), imm)
+                if repo_dec != want:
+                    rs = "error" if not repo_dec.startswith("D ") else ("wrong-instruction" if repo_dec.split()[1] != name else
+                                                                        ("register" if repo_dec.split()[2:6] != raw_in else "imm"))
+                    ctx.violation("loong64-Decode:%s:%s" % (fmtn, rs), "loong64.Decode(%s) returns `%s`, the encoded instruction was `%s` (%s)" % (
+                        word, repo_dec, want, o), {"op": o, "impl": r, "expected": want})
+                else:
+                    bump("la_repo_decode_ok")
+                if menc != "ok " + word and name not in la_bad:   # (a row with the wrong format has its own finding)
+                    ctx.corr["diffs"] += 1
+                    unexplained.append((o, r, menc))
+            nontrivial.add(("la", name, sym or "ok", "neg" if imm < 0 else "pos", imm % 4))
+            if len(samples) < 12 and idx % 1499 == 0:
+                samples.append({"op": o, "impl": r, "spec_decode": sd})
+        for o, r, menc in unexplained[:20]:
+            ctx.proof["broken"].append({"theorem": "correspondence C17 loong64 encoder model vs loong64.EncodeLA64",
+                                        "why": "op %r: impl=%r model=%r and the specification decoder recovers the operands" % (o, r, menc)})
+        for name in la_bad_rows:
+            if name not in la_row_example:
+                ctx.violation("loong64:table-row:%s" % name, "row %s of loong64._AOpContextTable does not carry the ISA encoding/format "
+                              "(no accepted input demonstrates it in this run)" % name, {"row": name})
+        dist["la_over_rejected_formats"] = la_over
+
+    # =============================================================== ARM64
+    _, a64, _ = ctx.run_bin(h, args=["dump", "arm64"])
+    try:
+        alast = int(a64.split()[1])
+    except Exception:
+        alast = 0
+    a_ops = ["a64 %d" % i for i in range(0, alast + 2)]
+    _, out, _ = ctx.run_bin(h, input_text="\n".join(a_ops) + "\n")
+    a_acc = [(o, r) for o, r in zip(a_ops, out.splitlines()) if r.startswith("ok")]
+    evaluations += len(a_ops)
+    dist["arm64_mnemonics_tried"] = len(a_ops)
+    dist["arm64_accepted"] = len(a_acc)
+    ctx.notes.append("arm64: EncodeARM64 rejected (panic TODO) all %d mnemonic numbers tried; accepted=%d - the ARM64 part of the property is vacuous on this tree" % (len(a_ops), len(a_acc)))
+    for o, r in a_acc[:3]:
+        # the encoder started to accept something: there is no ARM64 specification decoder in this check yet
+        ctx.proof["broken"].append({"theorem": "arm64 coverage", "why": "arm64.Encode now accepts %r -> %r but C17 has no ARM64 reference; extend the check" % (o, r)})
+
     cov = {
         "evaluations": evaluations,
         "distinct_nontrivial": len(nontrivial),
@@ -414,6 +678,7 @@ def run(ctx):
         "distribution": dist,
         "riscv_rows_not_matching_isa": bad_rows,
         "riscv_ranges_not_matching_isa": bad_ranges,
+        "loong64_rows_not_matching_isa": la_bad_rows,
     }
     return ctx.finish("proof", cov,
                       assumptions=["machine words are naturals < 2^32; the encoder's OR/shift packing is proved equal to positional arithmetic",
